@@ -50,6 +50,9 @@ pub struct Send {
     /// `send_in(.., delay)` instead of `send`
     pub delay_ns: u64,
     pub seq: u64,
+    /// the message is sent by a third module (which owns no gate of the chain) through a reference to the chain's end gate
+    #[serde(default)]
+    pub proxy: bool,
 }
 
 #[derive(Debug, Clone, Serialize, Deserialize, PartialEq)]
@@ -84,12 +87,14 @@ struct Arrival {
 
 thread_local! {
     static ARRIVALS: RefCell<Vec<Arrival>> = const { RefCell::new(Vec::new()) };
+    /// the two end gates of the chain, for sends made by the proxy module
+    static END_GATES: RefCell<Vec<GateRef>> = const { RefCell::new(Vec::new()) };
 }
 
 struct Node {
     idx: usize,
-    /// (time, gate name, pos, body, delay, seq)
-    plan: Vec<(u64, String, usize, usize, u64, u64)>,
+    /// (time, gate name, pos, body, delay, seq, end gate to use by reference (proxy sends))
+    plan: Vec<(u64, String, usize, usize, u64, u64, Option<usize>)>,
 }
 
 fn module_index(path: &str) -> usize {
@@ -105,9 +110,16 @@ impl Module for Node {
 
     fn handle_message(&mut self, msg: Message) {
         if msg.header().kind == TIMER && msg.try_content::<Pay>().is_none() {
-            let (_, name, pos, body, delay, seq) = self.plan[msg.header().id as usize].clone();
+            let (_, name, pos, body, delay, seq, by_ref) = self.plan[msg.header().id as usize].clone();
             let out = Message::default().with_content(Pay { seq, size: body });
-            if delay > 0 {
+            if let Some(end) = by_ref {
+                let gate = END_GATES.with(|g| g.borrow()[end].clone());
+                if delay > 0 {
+                    send_in(out, gate, Duration::from_nanos(delay));
+                } else {
+                    send(out, gate);
+                }
+            } else if delay > 0 {
                 send_in(out, (name.as_str(), pos), Duration::from_nanos(delay));
             } else {
                 send(out, (name.as_str(), pos));
@@ -157,6 +169,7 @@ pub struct Obs {
     pub connects: u64,
     pub repeats: u64,
     pub third_peer_rejections: u64,
+    pub proxy_sends: u64,
 }
 
 fn gate_id(case: &Case, g: &GateRef) -> Option<usize> {
@@ -191,13 +204,23 @@ pub fn execute(case: &Case) -> (Vec<Finding>, Obs) {
         let mut findings: Vec<Finding> = Vec::new();
         let mut sim = Sim::new(());
         // plans of the two endpoint owners
-        let mut plans: Vec<Vec<(u64, String, usize, usize, u64, u64)>> = vec![Vec::new(); case.modules];
+        let mut plans: Vec<Vec<(u64, String, usize, usize, u64, u64, Option<usize>)>> = vec![Vec::new(); case.modules + 1];
         for s in &case.sends {
             let g = if s.reverse { &case.gates[k] } else { &case.gates[0] };
-            plans[g.owner].push((s.time_ns, g.name.clone(), g.pos, s.body, s.delay_ns, s.seq));
+            if s.proxy {
+                plans[case.modules].push((s.time_ns, g.name.clone(), g.pos, s.body, s.delay_ns, s.seq, Some(usize::from(s.reverse))));
+            } else {
+                plans[g.owner].push((s.time_ns, g.name.clone(), g.pos, s.body, s.delay_ns, s.seq, None));
+            }
         }
         for (i, plan) in plans.into_iter().enumerate() {
-            sim.node(format!("m{i}"), Node { idx: i, plan });
+            if i == case.modules {
+                if !plan.is_empty() {
+                    sim.node("px", Node { idx: i, plan });
+                }
+            } else {
+                sim.node(format!("m{i}"), Node { idx: i, plan });
+            }
         }
         // gates (clusters are created as a whole)
         let mut gates: Vec<GateRef> = Vec::new();
@@ -210,7 +233,10 @@ pub fn execute(case: &Case) -> (Vec<Finding>, Obs) {
             };
             gates.push(g);
         }
-        let ids: Vec<u16> = (0..case.modules).map(|i| sim.get(&format!("m{i}").into()).expect("module").id().0).collect();
+        let mut ids: Vec<u16> = (0..case.modules).map(|i| sim.get(&format!("m{i}").into()).expect("module").id().0).collect();
+        // the proxy's id (or a value no module has, if there is none)
+        ids.push(sim.get(&"px".into()).map_or(u16::MAX, |m| m.id().0));
+        END_GATES.with(|g| *g.borrow_mut() = vec![gates[0].clone(), gates[k].clone()]);
 
         // connect calls in the generated order
         let mut connected = vec![false; k];
@@ -342,6 +368,7 @@ pub fn execute(case: &Case) -> (Vec<Finding>, Obs) {
     }
     // deliveries against the declared chain
     let arrivals = ARRIVALS.with(|a| std::mem::take(&mut *a.borrow_mut()));
+    END_GATES.with(|g| g.borrow_mut().clear());
     for s in &case.sends {
         let (src, dst) = if s.reverse { (k, 0) } else { (0, k) };
         let want_module = case.gates[dst].owner;
@@ -365,8 +392,21 @@ pub fn execute(case: &Case) -> (Vec<Finding>, Obs) {
                 format!("message {} ({} bytes) sent at {} ns over {} hops: expected arrival at {want_t} ns (sum of the per-hop delays), observed {} ns", s.seq, s.body + HEADER, s.time_ns + s.delay_ns, k, a.t),
             ));
         }
-        if a.sender_id != ids[case.gates[src].owner] {
-            f.push(("header-sender", format!("message {}: header.sender_module_id = {}, the sending module has id {}", s.seq, a.sender_id, ids[case.gates[src].owner])));
+        let sender = if s.proxy { case.modules } else { case.gates[src].owner };
+        if a.sender_id != ids[sender] {
+            f.push((
+                "header-sender",
+                format!(
+                    "message {}: header.sender_module_id = {}, the sending module {} has id {}",
+                    s.seq,
+                    a.sender_id,
+                    if s.proxy { "(a third module sending through a reference to the end gate)" } else { "(the owner of the gate)" },
+                    ids[sender]
+                ),
+            ));
+        }
+        if s.proxy {
+            obs.proxy_sends += 1;
         }
         if a.receiver_id != ids[want_module] {
             f.push(("header-receiver", format!("message {}: header.receiver_module_id = {}, the receiving module has id {}", s.seq, a.receiver_id, ids[want_module])));
@@ -467,7 +507,7 @@ pub fn gen_case(rng: &mut Rng, k: usize, order: Option<(Vec<usize>, u32)>) -> Ca
     for seq in 0..n_sends as u64 {
         let body = *rng.pick(&[0usize, 1, 448, 1436]);
         let delay_ns = if rng.chance(1, 3) { 1 + rng.below(2_000_000_000) } else { 0 };
-        sends.push(Send { time_ns: t, reverse: rng.chance(1, 2), body, delay_ns, seq });
+        sends.push(Send { time_ns: t, reverse: rng.chance(1, 2), body, delay_ns, seq, proxy: rng.chance(1, 5) });
         // uncontended: the next message is sent after this one has arrived
         let gap: u64 = hops.iter().filter_map(|h| h.channel).map(|(b, l)| l + tx_ns(1500, b)).sum::<u64>() + delay_ns + 1 + rng.below(1000);
         t += gap;
@@ -529,6 +569,7 @@ pub fn cmd(args: &Args) -> Report {
         rep.count("connect_calls", obs.connects);
         rep.count("repeated_connect_calls", obs.repeats);
         rep.count("third_peer_rejections", obs.third_peer_rejections);
+        rep.count("sends_by_a_third_module_through_a_gate_reference", obs.proxy_sends);
         rep.count("hops_total", case.hops.len() as u64);
         rep.max("max_hops", case.hops.len() as u64);
         if case.hops.iter().any(|h| h.channel.is_some()) {
